@@ -711,7 +711,7 @@ class Func:
             return out
         return [(x, envd) for x in succs]
 
-    def _seed_env(self, bb, depth=8):
+    def _seed_env(self, bb, depth=8, upto=0):
         """what is known on entry to bb because every path into it comes along one chain of single-predecessor
         edges (e.g. the `true` target of `if done`): the facts the switches on that chain establish"""
         chain = [bb]
@@ -728,6 +728,9 @@ class Func:
             self._env_block(envd, a, 0)
             nxt = [e for x, e in self._env_succs(a, envd) if x == b]
             envd = dict(nxt[0]) if nxt else {}
+        # a start in the middle of a block: what the statements before it established holds as well
+        if upto:
+            self._env_block(envd, bb, 0, upto=upto)
         return envd
 
     def forward_paths_hit(self, starts, targets, blockers=(), stop_at_targets=True, track_bools=True, arm_at=None, env0=None, stop_env=None):
@@ -753,7 +756,7 @@ class Func:
             # blockers only count after the path has passed `arm_at`
             return self._armed_search(arm_at, targets, blockers, track_bools)
         for s in starts:
-            e0 = self._seed_env(s[0]) if track_bools else {}
+            e0 = self._seed_env(s[0], upto=s[1]) if track_bools else {}
             if env0:
                 e0 = dict(e0, **{k: v for k, v in env0.items()}) if False else {**e0, **env0}
             dq.append((s[0], s[1], (s[0],), frozenset(e0.items())))
@@ -785,7 +788,20 @@ class Func:
                     dq.append((s, 0, path + (s,), env2))
         return None
 
-    def reach_blocks(self, starts, env0=None, blockers=()):
+    def feasible_blocks(self):
+        """blocks on some value-feasible path from the entry, falling back to plain CFG reachability when the
+        path-sensitive search would be too large"""
+        fb = getattr(self, '_feasible', None)
+        if fb is None:
+            plain = self.reachable_blocks(0)
+            try:
+                fb = self.reach_blocks([Loc(0, 0)], limit=20000) & plain
+            except OverflowError:
+                fb = plain
+            self._feasible = fb
+        return fb
+
+    def reach_blocks(self, starts, env0=None, blockers=(), limit=None, edges_out=None):
         """blocks entered on some path from starts (path-sensitive, like forward_paths_hit), not continuing
         through blocker locations"""
         blockers = set(blockers)
@@ -796,19 +812,23 @@ class Func:
         out = set()
         dq = deque()
         for s in starts:
-            e0 = {**self._seed_env(s[0]), **(env0 or {})}
+            e0 = {**self._seed_env(s[0], upto=s[1]), **(env0 or {})}
             dq.append((s[0], s[1], frozenset(e0.items())))
         while dq:
             bb, i, env = dq.popleft()
             if (bb, i, env) in seen:
                 continue
             seen.add((bb, i, env))
+            if limit is not None and len(seen) > limit:
+                raise OverflowError('state limit')
             out.add(bb)
             if [x for x in bl.get(bb, []) if x >= i]:
                 continue
             envd = dict(env)
             self._env_block(envd, bb, i)
             for s2, e2 in self._env_succs(bb, envd):
+                if edges_out is not None:
+                    edges_out.add((bb, s2))
                 dq.append((s2, 0, frozenset(e2.items())))
         return out
 
@@ -837,7 +857,7 @@ class Func:
         seen = set()
         dq = deque()
         for s_ in starts:
-            e0 = {**self._seed_env(s_[0]), **(env0 or {})}
+            e0 = {**self._seed_env(s_[0], upto=s_[1]), **(env0 or {})}
             dq.append((s_[0], s_[1], frozenset(e0.items()), (('V', local, 'entry'),)))
         while dq:
             bb, i, env, last = dq.popleft()
@@ -1177,7 +1197,9 @@ class ExprBuilder:
         if depth > self.max_depth or n in stack:
             return E('local', n, f.local_name(n))
         if getattr(self, '_reach', None) is None:
-            self._reach = f.reachable_blocks(0)
+            # blocks that lie on a feasible path from the entry (value-driven: `match (kind, false) { (_, true) => .. }`
+            # arms that can never run do not contribute definitions)
+            self._reach = f.feasible_blocks()
         ds = [x for x in f.defs.get(n, []) if not f.blocks[x[0][0]]['cleanup'] and x[0][0] in self._reach]
         if n in self.choose:
             ds = [x for x in ds if x[0] == self.choose[n]]
@@ -1627,6 +1649,95 @@ def guarded_by_variant(f, ve, loc):
     return f.forward_paths_hit([Loc(mine[1], 0)], [loc], blockers=[here]) is not None or f.edge_dominates(ve['edge'], loc)
 
 
+def must_have_bits(f, bits, at, field='flags', struct_suffix=None):
+    """forward must-analysis at bit level: does the `field` of the (one) struct it belongs to have all of `bits` set
+    at location `at` on every path from the entry?  Values are followed through integer locals, copies, casts,
+    `|`, `&`, struct literals and field stores — so `p.flags = A | B; if c { p.flags |= C }` and
+    `let mut fl = A | B; if c { fl |= C }; p.flags = fl` are the same to it."""
+    FIELD = 'FIELD'
+
+    def key(pl):
+        if not pl['p']:
+            return pl['l']
+        names = [p_.get('name') for p_ in pl['p'] if p_['k'] == 'field']
+        if names and names[-1] == field and pl['p'][-1]['k'] == 'field':
+            return FIELD
+        return None
+
+    def has(st, op):
+        if op.get('k') == 'const':
+            v = f.cval(op)
+            return v is not None and (v & bits) == bits
+        if 'l' not in op:
+            return False
+        k = key(op)
+        return k is not None and k in st
+
+    def xfer_stmt(st, s_):
+        if s_['k'] != 'assign':
+            return st
+        k = key(s_['lhs'])
+        rv = s_['rv']
+        if rv['k'] == 'agg' and struct_suffix and (rv.get('adt') or '').endswith(struct_suffix) and not s_['lhs']['p']:
+            i = rv['fields'].index(field) if field in (rv.get('fields') or []) else None
+            st = set(st)
+            st.discard(FIELD)
+            if i is not None and has(st, rv['ops'][i]):
+                st.add(FIELD)
+            return st
+        if k is None:
+            return st
+        kind = rv['k']
+        if kind == 'use':
+            v = has(st, rv['op'])
+        elif kind == 'cast':
+            v = has(st, rv['op'])
+        elif kind == 'bin' and rv['op'] == 'BitOr':
+            v = has(st, rv['a']) or has(st, rv['b'])
+        elif kind == 'bin' and rv['op'] == 'BitAnd':
+            v = has(st, rv['a']) and has(st, rv['b'])
+        else:
+            v = False
+        st = set(st)
+        (st.add if v else st.discard)(k)
+        return st
+
+    def xfer_term(st, t):
+        if t['k'] == 'call' and not t['dest']['p']:
+            st = set(st)
+            st.discard(t['dest']['l'])
+        return st
+    n = len(f.blocks)
+    out = [None] * n
+    inn = [None] * n
+    inn[0] = set()
+    work = deque([0])
+    while work:
+        b = work.popleft()
+        st = set(inn[b])
+        for s_ in f.blocks[b]['stmts']:
+            st = xfer_stmt(st, s_)
+        st = xfer_term(st, f.blocks[b]['term'])
+        if out[b] is not None and out[b] == st:
+            continue
+        out[b] = st
+        for s2 in f.succ[b]:
+            if f.blocks[s2]['cleanup']:
+                continue
+            new = set(st) if inn[s2] is None else (inn[s2] & st)
+            if inn[s2] is None or new != inn[s2]:
+                inn[s2] = new
+                work.append(s2)
+            elif out[s2] is None:
+                work.append(s2)
+    if inn[at[0]] is None:
+        return False
+    st = set(inn[at[0]])
+    for s_ in f.blocks[at[0]]['stmts'][:at[1]]:
+        st = xfer_stmt(st, s_)
+    return FIELD in st
+
+
 def correlated_alternatives(f, operands, multi='phi'):
     """expressions of several operands evaluated together, once per definition of a multi-definition aggregate local
     they all read from (`let (off, bytes) = if a { (0, x) } else { (1, y) }; copy(dst[off..], bytes)`): a list of
@@ -1779,9 +1890,10 @@ def pruned(f, removed_edges):
     g = Func.__new__(Func)
     g.__dict__.update(f.__dict__)
     rem = set(removed_edges)
-    g._succ = [[s for s in f.normal_succ(b) if (b, s) not in rem] for b in range(len(f.blocks))]
+    g._succ = [[s for s in f.succ[b] if (b, s) not in rem] for b in range(len(f.blocks))]
     g._pred = None
     g._dom = None
+    g._feasible = None
     return g
 
 
@@ -1796,6 +1908,20 @@ def specialise(f, def_suffix, value):
     g = pruned(f, rem)
     g.const_overrides = dict(getattr(f, 'const_overrides', {}))
     g.const_overrides[def_suffix] = 1 if value else 0
+    # edges no value-feasible path takes under this constant go too
+    # (`let next = if IS_MULTISHOT { results.next() } else { None }; let Some(r) = next else { .. }`: with the constant
+    # false the Some edge is dead although no switch on the constant guards it)
+    try:
+        taken = set()
+        g.reach_blocks([Loc(0, 0)], limit=20000, edges_out=taken)
+        dead = [(b, s2) for b in range(len(g.blocks)) if not g.blocks[b]['cleanup'] for s2 in g.succ[b]
+                if (b, s2) not in taken and not g.blocks[s2]['cleanup'] and any(b == tb for tb, _ in taken)]
+        if dead:
+            ov = g.const_overrides
+            g = pruned(g, dead)
+            g.const_overrides = ov
+    except OverflowError:
+        pass
     return g
 
 
